@@ -510,10 +510,17 @@ class HostGen:
                     self.kinds.add("loop-count-down")
             # "n" = one more than the largest index value the body sees (what an indexed array must hold)
             top = (start + max(n - 1, 0) * step + 1) if step > 0 else start + 1
+            # the caller may name the register that holds the counter (one per nesting level, from the top of the pool)
+            explicit = None
+            if self.ok("loop-explicit-register") and ch.flag(1, 6, "lreg"):
+                explicit = f"R{15 - sum(1 for lp in self.loops if lp['kind'] == 'loop')}"
+                self.kinds.add("loop-explicit-register")
             self.loops.append({"kind": "loop", "n": top, "form": form})
             b = self.body()
             self.loops.pop()
             self.kinds.add("loop_" + form)
+            if explicit is not None:
+                return [("loop", n, form, b, start, step, explicit)]
             return [("loop", n, form, b, start, step)]
         if kind in ("foreach", "enumerate"):
             arrs = sorted(a for a, d in self.arrays.items() if d["full"])
